@@ -93,8 +93,8 @@ def h_resolve(q0: int, q1: int, ql: int, r0: int, r1: int, rl: int, s0: int, s1:
 # ---------------------------------------------------------------------------------------------------------
 MAPPING = int(cube("mapping", 0))
 RKIND = cube("rkind", "remote")
-FILES = {"x/a": b"XA", "x/s/b": b"", "y": b"XA" if MAPPING != 3 else b"Y-own"}  # empty file + duplicate content across datasets
-# (with the disjoint-prefix mapping `y` has content of its own, so that its object is reachable only through its own prefix)
+FILES = {"x/a": b"XA", "x/s/b": b"", "y": b"XA" if cube("dup", False) else b"Y-own"}
+# `y` has content of its own (its object is reachable only through its own prefix) unless the cube asks for a duplicate across datasets
 
 
 def _md5(b):
